@@ -372,14 +372,16 @@ def peak_identity(ctx, rep, clause):
 def check(ctx, rep):
     rep.explanation = EXPLANATION
     an, program = ctx.analyzer, ctx.program
+    # generic per-function rules first: they have a verdict even where a shape-reading rule below says 'not read'
+    from .common import shared_rows_rule, value_keyed_table_rule
+    shared_rows_rule(ctx, rep, 'C17d', (SC,))
+    value_keyed_table_rule(ctx, rep, 'C17d', (SC,))
     attribute_resolution(ctx, rep, 'C17a')
     mode_exhaustive(ctx, rep, 'C17b')
     match_indexing(ctx, rep, 'C17c')
     closest_metric(ctx, rep, 'C17b')
     window_bounds(ctx, rep, 'C17a')
     peak_identity(ctx, rep, 'C17d')
-    from .common import shared_rows_rule
-    shared_rows_rule(ctx, rep, 'C17d', (SC,))
     callers = {f.fq for f in program.all_functions() if f.module.name == SC}
     n = add_fwd(rep, forwarding(an, program, ['tolerance_value', 'tolerance_type', 'mode', 'intensity_spectra'],
                                 callers=callers), 'C17c')
